@@ -63,6 +63,9 @@ def plan(tier, seed):
                 continue
             for n in lens:
                 shards.append({"peer": peer, "kind": kind, "n": n, "cs": seed})
+                if kind == "blk_ul" and n in (8, 36, 100):
+                    # a server without CRC support that does not announce the size: only the sequence numbers protect the data
+                    shards.append({"peer": peer, "kind": kind, "n": n, "cs": seed, "srv": "plain"})
                 if tier == "thorough" and kind.startswith("blk"):
                     for blk in (1, 2, 127):
                         shards.append({"peer": peer, "kind": kind, "n": n, "cs": seed, "blk": blk})
@@ -74,9 +77,10 @@ def plan(tier, seed):
 
 
 # ----------------------------------------------------------------------------- rig handling
-def make_rig(peer, blk=5):
+def make_rig(peer, blk=5, srv=None):
     if peer == "ref":
-        rig = rigs.ClientRig(node_id=7, od=od_factory(), timeout=0.003, blk_sizes=[blk])
+        opts = {"crc_support": False, "block_upload_size_indicated": False} if srv == "plain" else {}
+        rig = rigs.ClientRig(node_id=7, od=od_factory(), timeout=0.003, blk_sizes=[blk], **opts)
         rig.peer = "ref"
         rig.server_name = "refserver"
     else:
@@ -166,7 +170,7 @@ def stale_frames(kind, mux):
 # ----------------------------------------------------------------------------- one case
 def run_case(ctx, c):
     from canopen.sdo.exceptions import SdoAbortedError, SdoCommunicationError
-    rig = make_rig(c["peer"], c.get("blk", 5))
+    rig = make_rig(c["peer"], c.get("blk", 5), c.get("srv"))
     kind, n, k, dist = c["kind"], c["n"], c["k"], c["dist"]
     mux = list(VAL_OBJ)
     data = payload(n, c["seed"])
@@ -255,7 +259,7 @@ def run_case(ctx, c):
         rig.close()
         return
     ctx.count("cases_judged")
-    sig = (c["peer"], kind, n, c["stepclass"], dist.split(":")[0], c.get("blk", 5), c.get("retries", 1))
+    sig = (c["peer"], kind, n, c["stepclass"], dist.split(":")[0], c.get("blk", 5), c.get("retries", 1), c.get("srv"))
     # ---- outcome classification
     if exc is None:
         if upload:
@@ -349,7 +353,7 @@ def enumerate_cases(desc_run, cs):
     """Undisturbed run first: which responses exist; then every step x disturbance."""
     peer, kind, n = desc_run["peer"], desc_run["kind"], desc_run["n"]
     blk = desc_run.get("blk", 5)
-    rig = make_rig(peer, blk)
+    rig = make_rig(peer, blk, desc_run.get("srv"))
     mux = list(VAL_OBJ)
     data = payload(n, 12345)
     if kind.endswith("ul"):
@@ -384,8 +388,14 @@ def enumerate_cases(desc_run, cs):
                 dists.append("stale-before:" + name)
         if not kind.startswith("blk"):
             dists.append("request-lost")
+        if desc_run.get("srv") == "plain" and sc == "blk-segment" and b0 & 0x7F == blk and not b0 & 0x80:
+            # a second copy of the segment that closes a sub-block arrives where segment 1 of the next sub-block is due: it is
+            # a legal-looking (merely out-of-order) frame for that step, and without CRC and size nothing tells the
+            # copy from a real loss of the segments before it - indistinguishable, not generated for this server style
+            dists.remove("duplicated")
         for d in dists:
-            out.append({"peer": peer, "kind": kind, "n": n, "k": k, "dist": d, "stepclass": sc, "seed": rng.randint(0, 1 << 30), "blk": blk})
+            out.append({"peer": peer, "kind": kind, "n": n, "k": k, "dist": d, "stepclass": sc, "seed": rng.randint(0, 1 << 30), "blk": blk,
+                        "srv": desc_run.get("srv")})
             if d in ("lost", "lost-late", "request-lost"):
                 # the same loss with a second attempt allowed (SdoClient.MAX_RETRIES = 2)
                 out.append(dict(out[-1], retries=2, seed=rng.randint(0, 1 << 30)))
